@@ -37,6 +37,23 @@ theorem stack_turn_ends {fp : FdlParams} (hfp : FpOk fp) (p : Params) (h1 : p.ad
    (Stack.stack_never_panics hfp p h1 h2 haddr hinit gr calls ht0 ht).2.1⟩
 
 
+
+/-- **`turn_order` / `cycle_completed_once` for the composed stack**: in every run of station ∘ master,
+between two consecutive `cycle_completed` reports every occupied slot gets exactly one turn, in
+ascending slot order, and there is exactly one report per pass. -/
+theorem stack_turn_order {fp : FdlParams} (hfp : FpOk fp) (p : Params)
+    (haddr : fp.address.toNat = p.address) {slots : List (Option Peripheral)} (hinit : InitOk fp slots) (gr : Bool)
+    (calls : List Stack.Call) {t0 : Int} (ht0 : -(2:Int)^62 < t0) (ht : Stack.TimesOk t0 calls)
+    {k' : Stack.State} {l : List Stack.MCall} (h : Stack.run fp (Stack.init p slots gr) calls = .ok (k', l)) :
+    ∃ g t, trun fp (G.init slots gr) {} (l.map Stack.toOp) = .ok (g, t) ∧ g.m = k'.m ∧
+      (∀ P ∈ t.done, P.reverse = occAll slots) ∧
+      t.done.length = reports fp (G.init slots gr) (l.map Stack.toOp) ∧
+      ∀ P ∈ t.done, ∀ j, P.count j = if occupied slots j = true then 1 else 0 := by
+  obtain ⟨g, hg, hm, -⟩ := Stack.station_log_is_contract_history hfp p haddr hinit gr calls ht0 ht h
+  obtain ⟨t, ht'⟩ := turns_total fp slots gr _ hg
+  obtain ⟨h1, h2⟩ := cycle_completed_once hfp hinit gr _ ht'
+  exact ⟨g, t, ht', hm, (turn_order hfp hinit gr _ ht').1, h1, h2⟩
+
 /-! ### Non-vacuity -/
 
 /-- The concrete composed run `Stack.Ex.calls` is regular and makes `transmit_telegram` callbacks. -/
